@@ -28,8 +28,8 @@ ASSUMPTIONS = [
     'automatic radius: the vibration amplitude entering min(2*vib, d_min/2 - 0.005) is read from the real TrajectoryMetrics (its own laws are C14)',
     'K1 (MDAnalysis PeriodicKDTree loses pairs in strongly skewed boxes) is a third-party defect, tolerated only when a direct MDAnalysis call reproduces the miss',
 ]
-N_CASES = {'quick': 480, 'thorough': 20000}
-BUDGET_S = {'quick': 220, 'thorough': 2400}
+N_CASES = {'quick': 480, 'thorough': 100000}
+BUDGET_S = {'quick': 220, 'thorough': 3600}
 BAND = 1e-4
 K1 = 'K1-mdanalysis-pkdtree-skewed-box'
 
@@ -210,6 +210,11 @@ def run_auto_small(unit, rng, ctx):
     except ValueError as exc:
         if 'need at least one array' in str(exc):
             ctx.count('static_history_no_events')
+            ctx.case(None, False)
+            return
+        if 'too close' in str(exc) and dmin < 0.5 + 0.011 and dmin < 2 * r0:
+            # documented refusal: sites closer than 0.5 A with a geometry-limited radius
+            ctx.count('auto_radius_sites_too_close_error')
             ctx.case(None, False)
             return
         ctx.check(False, f'{what}: transitions_between_sites raised ValueError: {exc}', {**wit, 'traceback': traceback.format_exc()[-1200:]})
